@@ -468,6 +468,9 @@ def check_mask(o):
     mask = np.array(c["mask"], dtype=bool)
     res = o["res"]
     _warm(mesh)
+    d = same(s0, state(mesh))
+    if d:
+        return [("read-only queries / methods that return a new mesh changed the receiver: " + d, {}, None)]
     s0 = state(mesh)
     r = mesh.from_mask(mask) if c["kind"] == "vmask" else mesh.from_tri_mask(mask)
     if type(r) is not type(mesh):
@@ -535,6 +538,13 @@ def _warm(mesh):
             getattr(mesh, q)()
         except Exception:
             pass
+    # ... and every public method that RETURNS a changed mesh (the receiver keeps its own attributes)
+    for name, args in (("rescale_texture", (0.25, 3.0)), ("clip_texture", ((0.1, 0.4),))):
+        if hasattr(mesh, name):
+            try:
+                getattr(mesh, name)(*args)
+            except Exception:
+                pass
 
 
 def _geom_clauses(mesh, g, bad, pre=""):
